@@ -14,7 +14,11 @@ for d in seeded/*/; do
   git -C /tmp/wt-rc checkout -q -- . ; git -C /tmp/wt-rc clean -fdq
   if ! git -C /tmp/wt-rc apply --3way $PWD/$d/patch.diff >/dev/null 2>&1; then
     git -C /tmp/wt-rc checkout -q -- . ; git -C /tmp/wt-rc reset -q --hard HEAD
-    echo "$name $prop does-not-apply-to-HEAD" | tee -a $out; continue
+    ported=$(ls $PWD/$d/patch.ported-to-*.diff 2>/dev/null | tail -1)
+    if [ -z "$ported" ] || ! git -C /tmp/wt-rc apply --3way $ported >/dev/null 2>&1; then
+      git -C /tmp/wt-rc checkout -q -- . ; git -C /tmp/wt-rc reset -q --hard HEAD
+      echo "$name $prop does-not-apply-to-HEAD" | tee -a $out; continue
+    fi
   fi
   git -C /tmp/wt-rc reset -q   # 3-way leaves the index touched
   if ! (cd /tmp/wt-rc && go1.26.8 build ./... >/dev/null 2>&1); then echo "$name $prop does-not-build-on-HEAD" | tee -a $out; continue; fi
